@@ -623,6 +623,63 @@ impl E2 {
                 let outs: Vec<String> = fails.into_iter().map(join).collect();
                 format!("slow_finished_early={} returned_while_blocked={} fails={} last={} slow={}", early, returned, outs.join(","), last, slow_r)
             }
+            // C03 (finding F56): the window between a memtable rotation inside `apply` and the re-log of the rotating
+            // committer's batch.  Committer A (values of `size` bytes, `n` keys: more than the active memtable has left)
+            // is parked at the yield point `apply.woke` (after rotate_memtable + wake_up_memtable, before relog_if_rotated);
+            // the rotated memtable is flushed as the woken background task would do it (level 0 gains a table, the manifest switches); committer B commits one
+            // small key with immediate durability (its record goes to the NEW segment); the directory is copied to `dst`
+            // (a process-crash image); A is released and both are joined.
+            ["relogwin", n, size, dst] => {
+                use std::sync::atomic::{AtomicBool, Ordering as AO};
+                static PARKED: AtomicBool = AtomicBool::new(false);
+                static RELEASE: AtomicBool = AtomicBool::new(false);
+                fn hook(name: &'static str, _a: u64, _b: u64) {
+                    if name == "apply.woke" && !PARKED.swap(true, AO::SeqCst) {
+                        let t0 = std::time::Instant::now();
+                        while !RELEASE.load(AO::SeqCst) && t0.elapsed().as_secs() < 20 {
+                            std::thread::sleep(std::time::Duration::from_millis(2));
+                        }
+                    }
+                }
+                PARKED.store(false, AO::SeqCst);
+                RELEASE.store(false, AO::SeqCst);
+                let n: usize = n.parse().unwrap();
+                let size: usize = size.parse().unwrap();
+                let src = self.path();
+                let tree = self.tree.as_ref().unwrap();
+                let _g = self.rt.enter();
+                let l0_before = fe::levels(tree).first().map_or(0, |l| l.len());
+                let mut a = tree.begin_with_mode(Mode::ReadWrite).unwrap();
+                for i in 0..n {
+                    a.set(format!("a{:02}", i).into_bytes(), vec![0x41u8; size]).unwrap();
+                }
+                surrealkv::verif::yieldp::set_hook(Some(hook));
+                let ha = self.rt.spawn(async move { a.commit().await.map_err(|e| err_name(&e)) });
+                let wait = |f: &dyn Fn() -> bool| {
+                    let t0 = std::time::Instant::now();
+                    while !f() && t0.elapsed().as_secs() < 10 {
+                        std::thread::sleep(std::time::Duration::from_millis(5));
+                    }
+                    f()
+                };
+                let parked = wait(&|| PARKED.load(AO::SeqCst));
+                // the harness stores run without the background task manager: do what the woken flush task does
+                // (flush the oldest immutable memtable and switch the manifest), on this thread
+                let flushed = parked && fe::flush_oldest(tree).unwrap_or(false) && fe::levels(tree).first().map_or(0, |l| l.len()) > l0_before;
+                let mut b = tree.begin_with_mode(Mode::ReadWrite).unwrap();
+                b.set(b"b00".to_vec(), b"B".to_vec()).unwrap();
+                b.set_durability(surrealkv::Durability::Immediate);
+                let hb = self.rt.spawn(async move { b.commit().await.map_err(|e| err_name(&e)) });
+                std::thread::sleep(std::time::Duration::from_millis(400));
+                let b_returned_early = hb.is_finished();
+                let copied = copy_dir(&src, std::path::Path::new(dst)).is_ok();
+                let _ = std::fs::remove_file(std::path::Path::new(dst).join("LOCK"));
+                RELEASE.store(true, AO::SeqCst);
+                let ra = self.rt.block_on(ha).map_or("join-error".to_string(), |r| r.map_or_else(|e| format!("err:{}", e), |_| "ok".into()));
+                let rb = self.rt.block_on(hb).map_or("join-error".to_string(), |r| r.map_or_else(|e| format!("err:{}", e), |_| "ok".into()));
+                surrealkv::verif::yieldp::set_hook(None);
+                format!("parked={} flushed={} b_returned_before_image={} image={} a={} b={}", parked, flushed, b_returned_early, copied, ra, rb)
+            }
             ["rotate"] => self.phys(|t| fe::rotate(t)),
             ["flush"] => self.phys(|t| fe::flush_all(t)),
             ["flush1"] => self.phys(|t| fe::flush_oldest(t).map(|_| ())),
